@@ -1,4 +1,5 @@
 import QuantemModel.Lemmas.PtychoOpsProjection
+import QuantemModel.Lemmas.PtychoOpsExt
 /-!
 C16 — the forward-model operators of Model/PtychoOps.lean obey their energy, adjoint and
 projection identities.  All statements are about the executable model instantiated at the
@@ -367,5 +368,147 @@ example : Rect 2 3 ([[0, 1, 2], [3, 0, 5]] : RImg ℝ) ∧ NonNeg ([[0, 1, 2], [
     simp only [List.mem_cons, List.mem_nil_iff, or_false] at hrow
     rcases hrow with rfl | rfl <;>
       (simp only [List.mem_cons, List.mem_nil_iff, or_false] at ha; rcases ha with rfl | rfl | rfl <;> norm_num)
+
+/-! ## 7. (growth 5) `sum_patches_base` with torch's checks: accepted calls, rejected calls, histories -/
+
+/-- **scatter_checked_ok_iff**: a `sum_patches_base` call is accepted exactly when the index and
+weight arrays have the same number of entries and every index lies in `[0, n)` (negative indices
+are rejected by `index_add_`, not wrapped) -/
+theorem scatter_checked_ok_iff {α : Type} [Add α] (z : α) (n : Nat) (p : List α) (idx : List Int) :
+    (∃ out, sumPatchesBaseChecked z n p idx = .ok out) ↔
+      (idx.length = p.length ∧ ∀ i ∈ idx, 0 ≤ i ∧ i.toNat < n) :=
+  sumPatchesBaseChecked_ok_iff z n p idx
+
+/-- **adjoint_checked**: whatever an accepted call returns is the adjoint of the extraction — the
+model of the code WITH its failure branches (fresh buffer per call, partial writes of
+`index_add_` before an IndexError) refines the scatter of `adjoint` -/
+theorem adjoint_checked {α : Type} [CommSemiring α] (d : α) (o p : List α) (idx : List Int) (out : List α)
+    (h : sumPatchesBaseChecked 0 o.length p idx = .ok out) :
+    dot (gather d o (idx.map Int.toNat)) p = dot o out := by
+  obtain ⟨hlen, hidx⟩ := (sumPatchesBaseChecked_ok_iff 0 o.length p idx).1 ⟨out, h⟩
+  rw [sumPatchesBaseChecked_ok 0 o.length p idx hlen hidx] at h
+  injection h with h
+  subst h
+  apply adjoint d o p (idx.map Int.toNat)
+  intro i hi
+  obtain ⟨j, hj, rfl⟩ := List.mem_map.1 hi
+  exact (hidx j hj).2
+
+/-- **adjoint_history**: in EVERY history of `sum_patches_base` calls — valid calls and calls that
+raise (IndexError part-way, RuntimeError) in any order — every accepted call on the object's grid
+returns the exact adjoint of the extraction: an earlier rejected call cannot leak into it -/
+theorem adjoint_history {α : Type} [CommSemiring α] (d : α) (o : List α) (calls : List (ScatterCall α))
+    (k : Nat) (c : ScatterCall α) (out : List α) (hc : calls[k]? = some c) (hn : c.n = o.length)
+    (hout : (runScatterHistory 0 calls)[k]? = some (.ok out)) :
+    dot (gather d o (c.idx.map Int.toNat)) c.patches = dot o out := by
+  unfold runScatterHistory at hout
+  rw [List.getElem?_map, hc] at hout
+  simp only [Option.map_some, Option.some.injEq] at hout
+  rw [hn] at hout
+  exact adjoint_checked d o c.patches c.idx out hout
+
+/-- **rejected_calls_erasable**: deleting the rejected calls from a history does not change what the
+accepted calls return -/
+theorem rejected_calls_erasable {α : Type} [Add α] (z : α) (calls : List (ScatterCall α)) :
+    (runScatterHistory z calls).filter (fun r => r.toBool)
+      = runScatterHistory z (calls.filter fun c => (sumPatchesBaseChecked z c.n c.patches c.idx).toBool) := by
+  unfold runScatterHistory
+  rw [List.filter_map]
+  rfl
+
+-- non-vacuity: a history `[raises part-way, valid]` on a 3-point grid, evaluated exactly on `Int`
+example : runScatterHistory (0 : Int) [⟨3, [1, 2, 3], [0, 5, 1]⟩, ⟨3, [1, 2, 3, 4, 5], [2, 2, 0, 1, 2]⟩]
+    = [.error .indexError, .ok [3, 4, 8]] := by decide
+example : indexAddSeq ([0, 0, 0] : List Int) [(0, 1), (5, 2), (1, 3)] = ([1, 0, 0], true) := by decide
+example : sumPatchesBaseChecked (0 : Int) 3 [1, 2] [0, -1] = .error .indexError := by decide
+example : sumPatchesBaseChecked (0 : Int) 3 [1, 2] [0] = .error .runtimeError := by decide
+
+/-! ## 8. (growth 5) forward multislice then `ObjectPixelated.backward`: the entrance wave comes back -/
+
+/-- **backward_forward_identity**: for unit-modulus object patches and unit-modulus propagators —
+ANY number of slices — back-transmitting and back-propagating the exit wave of
+`overlap_projection` through the chain of `ObjectPixelated.backward` (conjugate patches,
+conjugate kernels, slices in reverse order) returns the entrance probe.  This is "propagating by
+a distance and then its negative is the identity" for the whole multislice operator. -/
+theorem backward_forward_identity {nr nc : ℕ} (hr : 0 < nr) (hc : 0 < nc)
+    (patches props : List (Img ℝ)) (probe : Img ℝ)
+    (hpatch : ∀ O ∈ patches, Rect nr nc O ∧ UnitModulus O)
+    (hprops : ∀ P ∈ props, Rect nr nc P ∧ UnitModulus P)
+    (hprobe : Rect nr nc probe) :
+    backwardGradient patches props (overlapProjection1 patches props probe).2 = probe := by
+  cases patches with
+  | nil => rfl
+  | cons p0 rest =>
+    have h0 := hpatch p0 (by simp)
+    unfold backwardGradient overlapProjection1
+    simp only
+    rw [overlap_foldl_snd, backward_chain hr hc _ _ _ (rect_mulImg h0.1 hprobe)]
+    · exact mulImg_conj_cancel h0.1 h0.2 hprobe
+    · intro pp hpp
+      have hm := List.of_mem_zip hpp
+      exact ⟨hprops pp.1 hm.1, hpatch pp.2 (by simp [hm.2])⟩
+
+-- non-vacuity: see the 2-slice instance of the hypotheses above (all-ones slices and kernels)
+
+/-! ## 9. (growth 5) `estimate_intensities` -/
+
+/-- the detector image is the `fftshift` of `estimate_intensities` (same ortho FFT, same mode sum) -/
+theorem detector_eq_fftshift_intensities (ws : List (Img ℝ)) :
+    detector ws = fftshift2 (estimateIntensities ws) := rfl
+
+/-- `estimate_intensities` sums to the total exit-wave intensity (Parseval, any number of modes) -/
+theorem estimate_intensities_total {nr nc : ℕ} (hr : 0 < nr) (hc : 0 < nc) (ws : List (Img ℝ))
+    (hws : ∀ w ∈ ws, Rect nr nc w) : rsum (estimateIntensities ws) = (ws.map energy).sum := by
+  rw [← rsum_fftshift2, ← detector_eq_fftshift_intensities]
+  exact rsum_detector hr hc ws hws
+
+/-! ## 10. (growth 5) `reset_recon` restores the object constraints after EVERY history -/
+
+/-- **reset_restores_defaults**: start from a freshly built reconstruction; apply any history of
+`ptycho.constraints = …` / `obj_model.constraints = …` / `add_constraint` / `reset_recon` calls,
+accepted or rejected with KeyError (a rejected dict HAS written the items in front of the bad key,
+and the caller carries on); then `reset_recon()`: it does not raise and the object's constraint
+dictionary is exactly the defaults again. -/
+theorem reset_restores_defaults (od pd dd : CDict) (hnd : od.keys.Nodup) (ops : List SessOp) :
+    (((Session.fresh od pd dd).run ops).step .resetRecon).1.obj = od
+      ∧ (((Session.fresh od pd dd).run ops).step .resetRecon).2 = false := by
+  have hinv : SessInv od ((Session.fresh od pd dd).run ops) := run_inv od ops _ ⟨rfl, rfl⟩
+  have h := applyItems_restore [] od ((Session.fresh od pd dd).run ops).obj
+    (by simpa using hinv.2) (by simpa using hnd) (by simp)
+  simp only [List.nil_append] at h
+  show (applyItems _ _ _).1 = od ∧ (applyItems _ _ _).2 = false
+  rw [hinv.1, h]
+  exact ⟨rfl, rfl⟩
+
+/-- the class-level defaults are never written, whatever the history: a model built LATER starts
+from the same defaults (`Session.fresh`) -/
+theorem defaults_never_change (od pd dd : CDict) (ops : List SessOp) :
+    ((Session.fresh od pd dd).run ops).objDefaults = od :=
+  (run_inv od ops _ ⟨rfl, rfl⟩).1
+
+/-- a rejected `add_constraint` (unknown key) is a no-op on the whole state -/
+theorem rejected_add_is_noop (s : Session) (k v : String) (hk : k ∉ s.objDefaults.keys) :
+    s.step (.objAdd k v) = (s, true) := by
+  show (let r := applyItems s.objDefaults s.obj [(k, v)]; (({ s with obj := r.1 } : Session), r.2)) = (s, true)
+  rw [applyItems_rejected _ _ k v hk]
+
+/-- **reset_modulus_neutral**: if the defaults keep a pure-phase object's modulus (no blur, no
+Butterworth filter, no slice averaging — the gates of `apply_hard_constraints`), then so do the
+constraints in force after a `reset_recon()` at the end of ANY history -/
+theorem reset_modulus_neutral (od pd dd : CDict) (hnd : od.keys.Nodup) (numSlices : Nat)
+    (hdef : modulusNeutral numSlices od = true) (ops : List SessOp) :
+    modulusNeutral numSlices ((Session.fresh od pd dd).run (ops ++ [.resetRecon])).obj = true := by
+  have : ((Session.fresh od pd dd).run (ops ++ [.resetRecon])).obj = od := by
+    unfold Session.run
+    rw [List.foldl_append, List.foldl_cons, List.foldl_nil]
+    exact (reset_restores_defaults od pd dd hnd ops).1
+  rw [this]; exact hdef
+
+-- non-vacuity: the history of the round-5 seed (reset, blur, reset) and a rejected dict with a partial write
+example :
+    let od : CDict := [("identical_slices", "False"), ("gaussian_sigma", "None"), ("q_lowpass", "None"), ("q_highpass", "None")]
+    let s := (Session.fresh od [] []).run [.resetRecon, .ptychoSet [("object", some [("gaussian_sigma", "2.0"), ("bogus", "1")])]]
+    s.obj.get? "gaussian_sigma" = some "2.0" ∧ modulusNeutral 1 s.obj = false
+      ∧ (s.step .resetRecon).1.obj = od ∧ modulusNeutral 1 od = true ∧ od.keys.Nodup := by decide
 
 end QuantemModel.Props.C16
